@@ -1,5 +1,7 @@
+pub mod c01;
 pub mod c02;
 pub mod c10;
+pub mod c11;
 pub mod c12;
 pub mod c13;
 pub mod c14;
@@ -11,8 +13,10 @@ pub type CheckFn = fn(&mut Ctx) -> (&'static str, String, bool);
 
 pub fn lookup(id: &str) -> Option<CheckFn> {
     Some(match id {
+        "C01" => c01::run,
         "C02" => c02::run,
         "C10" => c10::run,
+        "C11" => c11::run,
         "C12" => c12::run,
         "C13" => c13::run,
         "C14" => c14::run,
